@@ -37,7 +37,7 @@ template<int D> void run_c06_based(vp::Input const& in, vp::Ctx& ctx) {
 	multi::array<int, D> A[2]; BasedArr<D> M[2];
 	bool nt = false;
 	for(int r = 0; r < in.nops(); ++r) {
-		unsigned op = in.op(r, 0) % 9U; int a = in.op(r, 1) & 1, b = 1 - a;
+		unsigned op = in.op(r, 0) >= 235U ? 9U : in.op(r, 0) % 9U; int a  /* (operation 9 was added later: it is decoded from a reserved byte range so that older inputs keep their meaning) */ = in.op(r, 1) & 1, b = 1 - a;
 		unsigned x = in.op(r, 2) | (static_cast<unsigned>(in.op(r, 3)) << 8U);
 		BasedArr<D> nm;
 		for(int k = 0; k < D; ++k) { nm.first[static_cast<std::size_t>(k)] = static_cast<long>((x >> (5*k)) & 7U) % 7 - 3; nm.size[static_cast<std::size_t>(k)] = static_cast<long>((x >> (5*k + 3)) & 3U) + ((op == 0) ? 0 : 1); }
@@ -67,6 +67,15 @@ template<int D> void run_c06_based(vp::Input const& in, vp::Ctx& ctx) {
 			case 6: { ctx.desc << " | assign-convertible " << a << " <- array<long>(" << b << ")"; multi::array<long, D> L(A[b]); A[a] = L; M[a] = M[b]; break; }  // converting copies carry the extensions over
 			case 7: { ctx.desc << " | construct-convertible " << a << " <- array<long>(" << b << ")"; multi::array<long, D> L(A[b]); multi::array<int, D> T(L); A[a] = std::move(T); M[a] = M[b]; break; }
 			case 8: { ctx.desc << " | assign-view " << a << " <- " << b << "()"; A[a] = A[b](); M[a] = M[b]; break; }
+			case 9: {  // assign(first, last) from the rows (elements for D = 1) of the other array: the leading index range becomes [0, n), the rows keep their own index ranges
+				if(M[b].n() == 0) { break; }
+				ctx.desc << " | assign(first,last) " << a << " <- rows of " << b;
+				A[a].assign(A[b].begin(), A[b].end());
+				BasedArr<D> nm2 = M[b]; nm2.first[0] = 0; nm2.v.clear();
+				for(auto const& kv : M[b].v) { auto t = kv.first; t[0] -= M[b].first[0]; nm2.v[t] = kv.second; }
+				M[a] = nm2;
+				break;
+			}
 			default: {  // element write through the index
 				if(M[a].n() == 0) { break; }
 				std::array<long, D> t; long idx[D];
